@@ -18,7 +18,7 @@ def k_checkinit(base, chk):
     z = X.Ptr(k.ex.new_obj(k.path, PT, name="zero point"))
     arr = k.ex.new_obj(k.path, ("array", 1, prog.T("*" + E + "Point")), init=[z])
     paths = k.run([X.SliceV(arr, (), 0, 1, 1)])
-    chk.fact("checkInitialized: the zero-value Point panics", len(paths) == 1 and paths[0].outcome[0] == "panic", [fname])
+    chk.fact("checkInitialized: the zero-value Point panics", len(paths) == 1 and paths[0].outcome[0] == "panic", [fname], detail=str([p.outcome for p in paths][:2]))
     # (b) symbolic limbs with (x,y) not both all-zero: no panic
     k = K.BVK(base, chk, fname, label="checkInitialized")
     cells = [[]]
